@@ -453,7 +453,7 @@ def run(ctx):
         'bytes >= 0x80 and control characters; Int from a boundary grid (powers of 2 and 10 +-1, int32/int64 extremes) and random '
         'bit lengths; Float from a bit-pattern grid (zeros, subnormals, extremes, exact ties at the printed precision, decimal-looking '
         'values) and random exponent/mantissa) written with %$ or a numeric specification (flags + space 0 #, width, precision, l), '
-        'separated by literal text that cannot continue a numeric token, at start positions 0..40 behind arbitrary bytes, followed by '
+        'separated by literal text (printable ASCII incl. %, white space inside and at the end) that cannot continue a numeric token, at start positions 0..40 behind arbitrary bytes, followed by '
         'arbitrary trailing text, through a String or a File, in one print_to/scan_from call or item by item with show_to/look_from; '
         'plus every one-byte String; plus raw numeric text (white space, signs, 0x/0 prefixes, up to 24 digits, exponents -345..330, trailing junk) '
         'read with d i u x o (with and without l) and f/lf directives, for the correspondence of the scanner model only; a case is non-trivial when it has more than one value, or a String containing an escaped byte or '
